@@ -49,7 +49,9 @@ TRS_POOL = ['154n97w14', '154n97w15', '155n97w14', '154n96w01', '1s2e03',
             'XXXz97w__', '___z___zXX', '___zXXXz14', 'XXXz___z__',
             '154nXXXz__', '___z97wXX']
 DESCS = ['NE/4', 'Northeast Quarter', 'Lots 1 - 3, S/2NE/4',
-         'Lot 3, S/2NE/4, Lots 1, 2', 'W/2', 'foo']
+         'Lot 3, S/2NE/4, Lots 1, 2', 'W/2', 'foo',
+         # the same lots / aliquots as above, some of them named twice
+         'Lot 3, S/2NE/4, Lots 1 - 3', 'NE/4, NE/4NE/4', 'W/2, W/2']
 ATTRS = ['twprge', 'twp', 'rge', 'sec', 'trs', 'twp_num', 'rge_ew', 'sec_num']
 TRACT_ATTRS = ATTRS + ['desc', 'parse_complete']
 
